@@ -47,7 +47,8 @@ pub fn run(target: &str, focus: &str, data: &[u8]) -> Check {
         "fuzz_sorter" => {
             let Ok((conf, kind, src)) = bytescase::sorter_case(data) else { return Ok(()) };
             let _ = c17::C17;
-            c07::C07.run(&c07::Case { conf, kind, src }, &mut obs)
+            let raw = data.len() % 3 == 0;
+            c07::C07.run(&c07::Case { conf, kind, src, raw }, &mut obs)
         }
         other => Err(Fail::new("harness:unknown-target", other.to_string())),
     }
